@@ -1,4 +1,4 @@
 SPECIFICATION Spec
-CONSTANTS SS = 4 Lens = {0, 1, 3, 4, 5, 8, 9, 13} AliasFix = TRUE OmitFix = TRUE
+CONSTANTS SS = 4 Lens = {0, 1, 4, 5, 9} AliasFix = TRUE OmitFix = TRUE HdrLimit = "ok"
 INVARIANTS NotBad WrapUnwrapAgree
 CHECK_DEADLOCK FALSE
